@@ -582,6 +582,9 @@ func valuesEqual(a, b Value) bool {
 
 func (it *Interp) execRange(x *ast.RangeStmt, env *Env) ctrl {
 	coll := it.eval(x.X, env)
+	if p, ok := coll.(*Ptr); ok {
+		coll = p.cell.v // range over *[N]T
+	}
 	bind := func(e *Env, ex ast.Expr, v Value) {
 		if ex == nil {
 			return
